@@ -71,6 +71,9 @@ func vhBuild(h *vrt.H, k Keeper, ctx sdk.Context, n, t int, weights []uint64) *v
 		st.Tokens = append(st.Tokens, tk)
 		vhMust(k.Tokens.Set(ctx, tk.Denom, types.Token{Weight: tk.Weight, Threshold: tk.Threshold}))
 		thr = thr.Add(sdk.NewCoin(tk.Denom, tk.Threshold))
+		if h.Choose(h.Name("slashedBefore", j), 0, 1) == 1 { // an earlier slash of this token is on record
+			vhMust(k.Slashed.Set(ctx, tk.Denom, h.Int(h.Name("slashedTotal", j), "0", vhBig)))
+		}
 	}
 	vhMust(k.Threshold.Set(ctx, types.Threshold{List: thr}))
 
@@ -141,6 +144,29 @@ const (
 // vhCheckEndBlock runs the REAL EndBlocker on the current store and checks everything the
 // consensus engine and property C13 require of the reported updates.
 func vhCheckEndBlock(h *vrt.H, k Keeper, ctx sdk.Context, n int, maxValidators int64) {
+	addrs := make([]sdk.ConsAddress, n)
+	keys := make([][]byte, n)
+	for i := range addrs {
+		addrs[i], keys[i] = vhAddr(i), vhPubkey(i)
+	}
+	vhCheckEndBlockAt(h, k, ctx, addrs, keys, maxValidators)
+}
+
+func vhCheckEndBlockAt(h *vrt.H, k Keeper, ctx sdk.Context, addrs []sdk.ConsAddress, keys [][]byte, maxValidators int64) {
+	n := len(addrs)
+	vhAddr := func(i int) sdk.ConsAddress { return addrs[i] }
+	vhUpdateIndex := func(u abci.ValidatorUpdate, n int) int {
+		pk, ok := u.PubKey.Sum.(*tmcrypto.PublicKey_Secp256K1)
+		if !ok {
+			return -1
+		}
+		for i := range keys {
+			if string(pk.Secp256K1) == string(keys[i]) {
+				return i
+			}
+		}
+		return -1
+	}
 	// the module's own record of the previous set
 	preIn := make([]bool, n)
 	prePow := make([]uint64, n)
